@@ -89,6 +89,8 @@ type Stream struct {
 	callbackCloseState uint32
 	// set when Close() was deferred to the callback goroutine while the peer had not closed yet
 	localCloseDeferred uint32
+	// total bytes moved from pendingData into recvBuf, only touched by the reading side
+	movedInBytes uint64
 }
 
 // newStream is used to construct a new stream within
@@ -435,9 +437,11 @@ func (s *Stream) fillDataToReadBuffer(buf bufferSliceWrapper) error {
 				for {
 					s.pendingData.moveTo(s.recvBuf)
 					for s.offerToCallback() && s.recvBuf.Len() > 0 {
-						unread := s.recvBuf.Len()
+						unread, movedIn := s.recvBuf.Len(), s.movedInBytes
 						callback.OnData(s.recvBuf)
-						progressed := s.recvBuf.Len() < unread
+						// a blocking read inside OnData moves pending data in by itself, so progress is judged by the bytes
+						// consumed, not by comparing Len before and after
+						progressed := s.recvBuf.Len() < unread+int(s.movedInBytes-movedIn)
 						s.pendingData.moveTo(s.recvBuf)
 						// the peer had closed: nothing more will arrive, so stop once OnData makes no progress
 						if !progressed && !s.IsOpen() {
@@ -567,6 +571,7 @@ func (r *pendingData) moveToWithoutLock(toBuf *linkedBuffer) {
 		}
 	}
 	atomic.AddUint64(&r.stream.session.stats.inFlowBytes, uint64(toBuf.Len()-preLen))
+	r.stream.movedInBytes += uint64(toBuf.Len() - preLen)
 	r.unread = r.unread[:0]
 }
 
